@@ -158,41 +158,55 @@ CLAIMS = {'C03': {'text': 'Hazards of the geometry/container layer are enumerate
                  'matches. Bit equality itself is not decided.',
          'note': 'Facts are branch conditions on dominating edges (no path enumeration).',
          'technique': 'static analysis: edge-dominance facts + must-write summaries on MIR'},
- 'C01': {'text': 'Only the plumbing any correct two-pass separable resampler needs is decided, on '
-                 'all paths: X/Y kind inference shows every precompute_coefficients call gets '
-                 'inputs of one axis, horizontal coefficients reach only horiz_convolution and '
-                 'vertical ones only vert_convolution, pass offsets are of the other axis, temp '
-                 'images are (X extent, Y extent); ResizeAlg arms route to the right resampler '
-                 "with the right adaptive flag; each built-in filter's declared support covers the "
-                 'cut-off its kernel function compares with; window start/end are clamped to [0, '
-                 'in_size] and weights are normalised. The numerical error bound of the property '
-                 'is NOT decided.',
+ 'C01': {'text': 'Decided on all paths: the geometry formulas of precompute_coefficients are, as '
+                 'polynomial functions of their inputs, the ones the property states (centre in0 + '
+                 '(i+1/2)(in1-in0)/out_size, window floor/ceil(centre -/+ support*filter_scale) '
+                 'with clamps to 0 and in_size, kernel argument (x+1/2-centre)/filter_scale, '
+                 'filter_scale in {1, max(scale,1)}, source interval [left,left+width) / '
+                 '[top,top+height) at both call sites; weights scaled by 1 << stored precision); '
+                 'and the plumbing any correct two-pass separable resampler needs: X/Y kind '
+                 'inference shows every precompute_coefficients call gets inputs of one axis, '
+                 'horizontal coefficients reach only horiz_convolution and vertical ones only '
+                 'vert_convolution, pass offsets are of the other axis, temp images are (X extent, '
+                 'Y extent); ResizeAlg arms route to the right resampler with the right adaptive '
+                 "flag; each built-in filter's declared support covers the cut-off its kernel "
+                 'function compares with; window start/end are clamped to [0, in_size] and weights '
+                 'are normalised. The numerical error bound of the property is NOT decided.',
          'note': 'Kind sources are getter/field/parameter names (width/left/col vs '
                  'height/top/row).',
-         'technique': 'static analysis: abstract interpretation over an X/Y kind lattice on MIR '
-                      'expressions with closure substitution; enum-table and constant extraction'},
- 'C11': {'text': 'Decides: the column table of resample_nearest is built from horizontal '
-                 'quantities only and rows are stepped with vertical ones only; the unchecked '
-                 'column index is the pretabulated entry itself, clamped with width-1 of the view '
-                 'whose rows are read (a bound that depends on the crop box is a violation); the '
-                 'stored pixel is a loaded pixel with no arithmetic; no alpha code is reachable. '
-                 'Does NOT decide the index formula against floor(left+(x+0.5)*scale) nor the '
-                 'agreement of the two iter_rows_with_step implementations.',
+         'technique': 'static analysis: polynomial normal form of MIR expressions compared with '
+                      'the stated formulas + abstract interpretation over an X/Y kind lattice with '
+                      'closure substitution; enum-table and constant extraction'},
+ 'C11': {'text': 'Decides: the column position before truncation is left + '
+                 '(x+1/2)*crop_width/dst_width, the rows start at top + crop_height/dst_height/2 '
+                 'and step by crop_height/dst_height (polynomial comparison), every '
+                 'iter_rows_with_step implementation truncates an accumulator that starts at '
+                 'start_y and grows by exactly step; the column table of resample_nearest is built '
+                 'from horizontal quantities only and rows are stepped with vertical ones only; '
+                 'the unchecked column index is the pretabulated entry itself, clamped with '
+                 'width-1 of the view whose rows are read (a bound that depends on the crop box is '
+                 'a violation); the stored pixel is a loaded pixel with no arithmetic; no alpha '
+                 'code is reachable. Does NOT decide floating-point accumulation error of the row '
+                 'position nor that the two iter_rows_with_step implementations skip rows '
+                 'identically.',
          'note': 'Clamp adequacy is a stated-belief rule (a bound equal to the row length is '
                  "reachable by the author's own reckoning).",
-         'technique': 'static analysis: kind inference + iterator-source tracing + dependence '
-                      '(copy-only) on MIR'},
- 'C15': {'text': 'Decides for fit_src_into_dst_size: left depends on centering.0 and the width '
-                 'margin only, top on centering.1 and the height margin only; both centering '
-                 'components are clamped to [0,1]; on each of the three ratio branches one crop '
-                 'dimension is the full source dimension; get_crop_box passes (src w, src h, dst '
-                 'w, dst h) in order.; a crop dimension computed from the ratios is assigned only '
-                 'under a strict ratio comparison (or after the approximately-equal branch) or '
-                 'clamped, so fl(ratio*height) cannot exceed the source width. Does NOT decide '
-                 'aspect accuracy nor sizes beyond 2^26 per side.',
+         'technique': 'static analysis: polynomial normal form of MIR expressions + kind inference '
+                      '+ iterator-source tracing + dependence (copy-only) on MIR'},
+ 'C15': {'text': 'Decides for fit_src_into_dst_size: left = (width - crop_width)*centering.0 and '
+                 'top = (height - crop_height)*centering.1 as polynomial functions; left depends '
+                 'on centering.0 and the width margin only, top on centering.1 and the height '
+                 'margin only; both centering components are clamped to [0,1]; on each of the '
+                 'three ratio branches one crop dimension is the full source dimension; '
+                 'get_crop_box passes (src w, src h, dst w, dst h) in order.; a crop dimension '
+                 'computed from the ratios is assigned only under a strict ratio comparison (or '
+                 'after the approximately-equal branch) or clamped, so fl(ratio*height) cannot '
+                 'exceed the source width. Does NOT decide aspect accuracy nor sizes beyond 2^26 '
+                 'per side.',
          'note': 'Local names crop_width/crop_height/centering are anchors (CHECK-ERROR/UNDECIDED '
                  'if renamed).',
-         'technique': 'static analysis: data-dependence and branch-wise definitions on MIR'},
+         'technique': 'static analysis: polynomial normal form + data-dependence and branch-wise '
+                      'definitions with dominating guard facts on MIR'},
  'C16': {'text': 'Decides: the four built-in transfer functions are non-decreasing on [0,1] and '
                  'the table-entry expression of MappingTable::new is non-decreasing in the index '
                  'for any non-decreasing transfer function (piecewise abstract interpretation over '
